@@ -304,6 +304,9 @@ pub fn run(ctx: &mut Ctx) {
     ctx.rule = "add/subtract: generated (date-time at ns resolution, valid duration with date fields up to 2^31+-k and time fields up to 2^53 s, overflow) against exact-carry AddDateTime in unbounded integers; until/since: generated pairs (classes: time-of-day order opposite to date order, same date, 1 ns apart, month ends) x all ten largest units against DifferenceISODateTime + laws (sign-uniform, time part < 24 h for date largest units, a.add(a.until(b)) == b, since == -until); round: the PlainDateTime.round cases of C07 (multiples counted within the day, carry into the next day, RangeError when the carry leaves the range); laws: a day / time-unit difference of two date-times carrying the same non-ISO calendar (8 calendars) equals that of their ISO twins, and round() without a rounding mode equals round() with halfExpand (half of the receivers exactly on a tie). non-trivial = time order opposite to date order, carry across midnight, start day >= 29, same date, or within 2 days of a limit.".into();
     let t = ctx.tier;
     ctx.run_prop(&AddSub, &add_case, t.pick(800_000, 30_000_000));
+    // results on and next to the first / last representable date-time (incl. exactly the excluded lower bound
+    // -271821-04-19T00:00 and the nanosecond after it): C02's boundary generator for this sub-check
+    ctx.run_prop(&AddSub, &crate::props::c02::datetime_add_boundary, t.pick(200_000, 5_000_000));
     ctx.run_prop(&DiffSub, &diff_case, t.pick(800_000, 30_000_000));
     ctx.run_prop(&crate::props::c07::PubSub, &crate::props::c07::dt_round_case, t.pick(400_000, 10_000_000));
     ctx.run_prop(&LawSub, &law_case, t.pick(100_000, 3_000_000));
